@@ -389,6 +389,34 @@ PROPS["C02"] = dict(
                "modelled by documented semantics (btInsert/ixInsert).",
 )
 
+PROPS["C06"] = dict(
+    lean_targets=["SJ.Props.C06", "SJ.Props.C06Int", "SJ.Audit.C06"],
+    configs=dict(quick=["d", "ap"], thorough=["d", "ap", "fr"]),
+    gen_keys=["de."],
+    rule="integer literals: every value within +-40 (thorough +-300) of each power of two up to 2^128 and of each type bound, with "
+         "and without '-', all values in [-300,300] (thorough: all 8- and 16-bit values), -0, fraction/exponent spellings of "
+         "integral values, near-misses of the grammar (01, +1, 1., .1, padded), random 1-45 digit literals; each into the twelve "
+         "integer types via from_str, from_value, Deserialize for &Value, as a quoted map key of a text object and as a key of a "
+         "Value map; Number accessors (as_i64/as_u64/as_i128/as_u128/is_*) of the literal; to_string of the integer. "
+         "Non-trivial = literal longer than one byte; distinct = distinct lines.",
+    trusted_base=MACHINE_TB + ["serde's primitive integer visitors (range checks) modelled by documented semantics (visitInt)"],
+    assumptions=["a Value cannot hold integers outside [i64::MIN, u64::MAX] nor -0 as an integer without arbitrary_precision: the "
+                 "via-Value clause is judged on representable literals only",
+                 "itoa prints plain decimal digits (checked by the iprint op on every literal)"],
+    partial=["via-Value and map-key paths are tied by correspondence + the property's predicate; only the text path has a Lean model "
+             "(the map-key path runs the same deserialize_number)"],
+    technique="Lean 4 theorems: overflow! guard = mathematical comparison; digit-loop and integer classification for every digit string; "
+              "typed deserialisation = value-and-range specification for all ten integer widths, both float configurations; "
+              "accessor laws; boundary-dense differential run over five deserialisation paths",
+    level_text="Machine-checked: c06_typed (for every integer type and every number literal, text deserialisation returns the literal's "
+               "mathematical value iff it has no fraction/exponent, is not -0 (8..64-bit) and lies in the type's range; never wraps), "
+               "c06_overflow_guard_spec, c06_digit_loop, c06_parse_integer(_intClass), c06_minus_zero, c06_out_of_integer_range, "
+               "c06_accessors (as_* exact or None; is_* iff as_* is Some). The crate is run on boundary-dense literals through text, "
+               "Value (owned and borrowed) and both map-key paths for twelve integer types, plus accessors and printing.",
+    level_note="Trusted: Lean kernel + 3 standard axioms; extract.py; harness/driver; Model.Num/TypedInt transcriptions validated by "
+               "correspondence; serde's visitors assumed. One open finding under arbitrary_precision (-0 via Value).",
+)
+
 # properties not claimed yet (kept current as checks are added)
 NOT_APPLICABLE = [
     dict(property_id=f"C{i:02d}", reason="check under construction in this build phase; not yet claimed (see DESIGN.md §11 build order)")
